@@ -379,6 +379,12 @@ impl ClusterHandler for GenCommHandler<'_> {
                 let pase_sess_id =
                     matches!(sess.get_session_mode(), SessionMode::Pase { .. }).then(|| sess.id());
 
+                if state.failsafe.is_armed() {
+                    // Only the context that armed the fail-safe may force it to expire;
+                    // anybody else is told that another administrator is busy
+                    state.failsafe.check_armed(sess.get_session_mode())?;
+                }
+
                 removed_fabric = state.failsafe.expire(
                     &mut state.fabrics,
                     &mut state.sessions,
